@@ -238,6 +238,15 @@ func c09Gen(tier string, seed int64) []fw.Case {
 				add(c09Desc{Role: role, Adversary: "never-reads", State: "fragment-buffered", Size: size, Closer: cl, Deflate: false})
 			}
 		}
+		// CloseRead called for the first time on a connection that is closed already: its context ends at once
+		for _, how := range []string{"CloseNow", "Close", "peer-close-seen-by-read", "protocol-error-seen-by-read", "transport-eof-seen-by-read", "context-expiry"} {
+			for i := 0; i < tierPick(tier, 2, 8); i++ {
+				d := c09Desc{Role: role, Adversary: "closeread-after-closed/" + how, State: "closed", Closer: "none"}
+				d.Seed = rng.U64()
+				dd := d
+				cases = append(cases, fw.Case{Name: fmt.Sprintf("%s/closeread-after-closed/%s", role, how), Desc: dd, Run: func(r *fw.R) { c09CloseReadAfterClosed(r, dd, how) }})
+			}
+		}
 		// CloseRead closes the connection by itself when a data message arrives
 		for _, adv := range []string{"echoes", "silent", "keeps-sending"} {
 			reps := tierPick(tier, 4, 20)
@@ -247,6 +256,66 @@ func c09Gen(tier string, seed int64) []fw.Case {
 		}
 	}
 	return cases
+}
+
+// c09CloseReadAfterClosed: the connection is closed (in one of six ways) BEFORE CloseRead is called for the first
+// time; the context CloseRead returns must end promptly all the same.
+func c09CloseReadAfterClosed(r *fw.R, d c09Desc, how string) {
+	r.SetSample(d)
+	c, _, peerEnd, err := libConn(d.Role, wire.Params{}, 0, xport.Plan{NoTap: true}, xport.Plan{NoTap: true})
+	if err != nil {
+		r.Violate("C09/attach-failed", err.Error(), "")
+		return
+	}
+	defer closeNowBounded(c, 3*time.Second)
+	defer peerEnd.Close()
+	peer := newRawPeer(peerEnd, d.Role, wire.Params{}, d.Seed)
+	peer.AutoClose = true
+	peer.Start()
+	bg, cancelBg := context.WithTimeout(context.Background(), 60*time.Second)
+	defer cancelBg()
+	switch how {
+	case "CloseNow":
+		c.CloseNow()
+	case "Close":
+		c.Close(websocket.StatusNormalClosure, "")
+	case "peer-close-seen-by-read":
+		peer.Send(wire.Close(wire.ClosePayload(1000, "bye")))
+		c.Read(bg)
+	case "protocol-error-seen-by-read":
+		peer.SendBytes(c09ViolationFrames(peer, "reserved-opcode"))
+		c.Read(bg)
+	case "transport-eof-seen-by-read":
+		peerEnd.Close()
+		c.Read(bg)
+	case "context-expiry":
+		rctx, rc := context.WithTimeout(bg, 5*time.Millisecond)
+		c.Read(rctx)
+		rc()
+	}
+	// the connection is closed now (the transport too, in every one of these ways)
+	if !peer.WaitEnd(10 * time.Second) {
+		r.Inconclusivef("%s closeread-after-closed/%s: the transport was not closed within 10 s", d.Role, how)
+		return
+	}
+	canaryMax.Store(0)
+	t0 := time.Now()
+	crCtx := c.CloseRead(bg)
+	select {
+	case <-crCtx.Done():
+		r.Count("closeread_contexts_timed", 1)
+		r.Count("closeread_on_a_closed_connection", 1)
+		if el := time.Since(t0); el > c09UnblockBound {
+			if over := time.Duration(canaryMax.Load()); over > c09CanaryLimit && 3*over > el-c09UnblockBound {
+				r.Inconclusivef("%s closeread-after-closed/%s: cancelled after %v, canary overslept %v", d.Role, how, el, over)
+			} else {
+				r.Violate("C09/closeread-context-cancelled-late/on-a-closed-connection/"+how, fmt.Sprintf("%s: CloseRead was called on a connection already closed by %s; its context ended only after %v", d.Role, how, el.Round(time.Millisecond)), "")
+			}
+		}
+	case <-time.After(20 * time.Second):
+		r.Violate("C09/closeread-context-never-cancelled/on-a-closed-connection/"+how, fmt.Sprintf("%s: CloseRead was called on a connection already closed by %s; 20 s later its context was still live", d.Role, how), "")
+	}
+	r.Key("%s/closeread-after-closed/%s", d.Role, how)
 }
 
 func c09Run(r *fw.R, d c09Desc) {
